@@ -92,10 +92,14 @@ let only_vals_differ a b =
 
 (* ---- the watch part: is the stream one that Watch.v can produce? *)
 let ev_of ord k = { ev_key = keycode k; ev_ver = n_of_int ord }
+let in_scope = ref (fun (_ : string) -> true)
 let model_stream w p ts_events =
   (* one-watcher world: p events are consumed by the loop before Watch, the replay snapshot is taken when ts_events writes exist *)
   let n = List.length cur.events in
   let writes a b = List.filteri (fun i _ -> i >= a && i < b) cur.events |> List.map (fun (k, _) -> SWrite (keycode k)) in
+  (* v3 transactions: one event loop per target log; the streams of two logs interleave freely, so each log is
+     validated on its own (writes to the other log are left out of the model run, which renumbers the versions) *)
+  let writes a b = if cur.kind = "tx3" then List.filter (function SWrite k -> !in_scope (if int_of_n k = 9 then "kw" else "k" ^ string_of_int (int_of_n k)) | _ -> true) (writes a b) else writes a b in
   let takes c = List.init c (fun _ -> STake) in
   let filt = match w.wkey with Some k -> Some (keycode k) | None -> None in
   let ls = writes 0 w.wreg @ takes p @ [ SOpen (n_of_int 1, filt, w.wreplay) ] @ writes w.wreg ts_events @ [ SSnap (n_of_int 1) ] @ writes ts_events n in
@@ -125,25 +129,33 @@ let check_watcher id w evs dump =
         end) dump;
     List.iter (fun (_, k, _) -> match w.wkey with Some x when x <> k -> specviol id "c15_watch_foreign_record" (Printf.sprintf "watcher %d for %s was shown %s" w.wid x k) | _ -> ()) evs;
     (* correspondence with Watch.v: some admissible schedule (events still queued at Watch time, time of the replay snapshot) explains the stream *)
+    let logs = if cur.kind = "tx3" then [ (fun k -> k = "k0" || k = "k1"); (fun k -> not (k = "k0" || k = "k1")) ] else [ (fun _ -> true) ] in
+    let found = ref true in
+    let ord k v = let rec f i = function [] -> -1 | (k', x) :: r -> if not (!in_scope k') then f i r else if x = v && k' = k then i else f (i + 1) r in f 1 cur.events in
+    List.iter (fun scope ->
+        in_scope := scope;
+        let evs = List.filter (fun (_, k, _) -> scope k) evs in
+        let nrep = let rec c = function ("R", _, _) :: r -> 1 + c r | _ -> 0 in c evs in
+        let norm l = let rec split i = function x :: r when i > 0 -> let (a, b) = split (i - 1) r in (x :: a, b) | r -> ([], r) in
+          let (a, b) = split nrep l in List.sort compare a @ b in
+        let impl = norm (List.map (fun (_, k, v) -> (int_of_n (keycode k), ord k v)) evs) in
+        let n = List.length cur.events in
+        let ok = ref false in
+        let base = List.length (List.filteri (fun i (k, _) -> i < w.wreg && scope k) cur.events) in
+        let p = ref base in
+        while (not !ok) && !p >= max 0 (base - 4) do
+          let ts = ref w.wreg in
+          while (not !ok) && !ts <= n do
+            (match model_stream w !p !ts with
+             | Some (m, q, good) -> if norm m = impl then begin ok := true; if not (q && good) then mismatch id "Watch.v: matching schedule is not quiescent / not ok" end
+             | None -> ());
+            if w.wreplay then incr ts else ts := n + 1
+          done;
+          decr p
+        done;
+        if not !ok then found := false) logs;
+    in_scope := (fun _ -> true);
     let ord k v = let rec f i = function [] -> -1 | (k', x) :: r -> if x = v && k' = k then i else f (i + 1) r in f 1 cur.events in
-    (* the replayed prefix comes in the (unspecified) order of the Atomix List: compared as a set *)
-    let nrep = let rec c = function ("R", _, _) :: r -> 1 + c r | _ -> 0 in c evs in
-    let norm l = let rec split i = function x :: r when i > 0 -> let (a, b) = split (i - 1) r in (x :: a, b) | r -> ([], r) in
-      let (a, b) = split nrep l in List.sort compare a @ b in
-    let impl = norm (List.map (fun (_, k, v) -> (int_of_n (keycode k), ord k v)) evs) in
-    let n = List.length cur.events in
-    let found = ref false in
-    let p = ref w.wreg in
-    while (not !found) && !p >= max 0 (w.wreg - 4) do
-      let ts = ref w.wreg in
-      while (not !found) && !ts <= n do
-        (match model_stream w !p !ts with
-         | Some (m, q, ok) -> if norm m = impl then begin found := true; if not (q && ok) then mismatch id "Watch.v: matching schedule is not quiescent / not ok" end
-         | None -> ());
-        if w.wreplay then incr ts else ts := n + 1
-      done;
-      decr p
-    done;
     if not !found then mismatch id (Printf.sprintf "%s watcher %d (replay=%b): no schedule of Watch.v yields the observed stream [%s]" cur.kind w.wid w.wreplay
                                       (String.concat "," (List.map (fun (t, k, v) -> Printf.sprintf "%s.%s.#%d" t k (ord k v)) evs)))
   end
